@@ -58,8 +58,8 @@ PROPS = {
         explore=ce.explore_c18,
     ),
     "C05": dict(
-        modules=["JPV.Props.C05"],
-        theorems=["JPV.Props.C05_partial", "JPV.Props.C05_arg_rule"],
+        modules=["JPV.Props.C05", "JPV.Props.C03"],
+        theorems=["JPV.Props.C05_sound", "JPV.Props.C05_invalid_rejected", "JPV.Props.C03", "JPV.Props.C05_partial", "JPV.Props.C05_arg_rule"],
         tables=[T + "builtin_sigs_model", T + "env_defaults_model", T + "token_map_model",
                 T + "function_argument_map_model", T + "exceptions_model"],
         explore=ct.explore_c05,
